@@ -2,6 +2,7 @@ package main
 
 import (
 	"encoding/json"
+	"errors"
 	"fmt"
 	"path/filepath"
 	"strings"
@@ -83,7 +84,8 @@ func c13Alphabet(c Cfg) []Op {
 		{K: "put", Key: "a", VC: "L", Dev: true},
 		{K: "put", Key: "b", VC: "X", Dev: true},
 		{K: "sync", Dev: true},
-		{K: "restart", Dev: true}, // Close (must flush) + Open
+		{K: "syncfail", Dev: true}, // Sync() whose flush the device refuses
+		{K: "restart", Dev: true},  // Close (must flush) + Open
 		{K: "merge", Dev: true},
 	}
 	for _, body := range [][]Op{
@@ -134,6 +136,31 @@ func runC13(cfg Cfg, keys []string, ops []Op, res *TaskResult) *Violation {
 				return nil
 			}
 			res.Transitions++
+			continue
+		}
+		if op.K == "syncfail" {
+			// Sync() whose flush the device refuses: it must say so, nothing counts as flushed, and the strategy's
+			// bookkeeping must not forget the bytes that are still unflushed
+			refused := 0
+			iorec.Before = func(o, path, path2 string, n int64) error {
+				if o == "sync" || o == "msync" {
+					refused++
+					return errors.New("injected: the device refuses this flush")
+				}
+				return nil
+			}
+			err := w.guard(func() error { return w.DB.Sync() })
+			iorec.Before = nil
+			res.Transitions++
+			if w.Dead {
+				return nil
+			}
+			if refused > 0 {
+				res.count("refused_flushes", 1)
+				if err == nil {
+					return viol("C13", "sync-error-swallowed", "sync-error-swallowed:"+ioName(cfg), fmt.Sprintf("step %d %s (strategy %s): the device refused the flush but Sync() returned nil; unflushed: %s", i, op, cfg, tr.describe()))
+				}
+			}
 			continue
 		}
 		ar := w.Apply(op)
@@ -244,7 +271,37 @@ func init() {
 			if tier == "thorough" {
 				d, b = 6, 3
 			}
-			return seqTasks("C13", []seqLevel{{Name: fmt.Sprintf("d%db%d", d, b), Cfgs: c13Cfgs(), Keys: keysAB, Alpha: c13Alphabet, Depth: d, Dev: b, Run: runC13}})
+			// block family: a record that ends exactly on (or 3 bytes before) a 32 KiB block boundary leaves the file with an
+			// "empty" last block: every flush obligation still holds for it
+			blockAlpha := func(c Cfg) []Op {
+				return []Op{
+					{K: "put", Key: "a", VC: "S"},
+					{K: "put", Key: "b", VC: "B", Arg: 0},
+					{K: "put", Key: "b", VC: "B", Arg: 3},
+					{K: "del", Key: "a"},
+					{K: "sync"},
+					{K: "restart"},
+					{K: "batch", Arg: 1, Sub: []Op{{K: "put", Key: "b", VC: "B", Arg: 8}}},
+					{K: "batch", Arg: 1, Sub: []Op{{K: "put", Key: "a", VC: "S"}, {K: "put", Key: "b", VC: "S"}}},
+				}
+			}
+			var bcfgs []Cfg
+			for _, io := range []byte{0, 1} {
+				for _, sy := range []struct {
+					s   byte
+					bps uint
+				}{{0, 64}, {1, 64}, {2, 64}} {
+					c := blockCfg()
+					c.IO, c.Sync, c.BPS = io, sy.s, sy.bps
+					bcfgs = append(bcfgs, c)
+				}
+			}
+			bd := 3
+			if tier == "thorough" {
+				bd = 4
+			}
+			return seqTasks("C13", []seqLevel{{Name: fmt.Sprintf("d%db%d", d, b), Cfgs: c13Cfgs(), Keys: keysAB, Alpha: c13Alphabet, Depth: d, Dev: b, Run: runC13},
+				{Name: fmt.Sprintf("block-boundary-d%d", bd), Cfgs: bcfgs, Keys: keysAB, Alpha: blockAlpha, Depth: bd, Dev: bd, Run: runC13}})
 		},
 		Bounds: func(tier string) map[string]any {
 			d, b := 5, 2
